@@ -10,4 +10,18 @@ def run(tier):
         if q == 'RegionGraph.__init__':
             reps.append(deductive.verify_function(rel, q, c, hooks=OW.hooks_for(c), prefix='%s::%s[oracle wiring]' % (rel, q)))
     reps.append(OW.frame_report())
+    import time
+    from ..vc import frames
+    from .. import frontend
+    for rel, q in (('src/mbi/factor_graph.py', 'FactorGraph.loopy_belief_propagation'), ('src/mbi/factor_graph.py', 'FactorGraph.convergent_belief_propagation'),
+                   ('src/mbi/region_graph.py', 'RegionGraph.generalized_belief_propagation')):
+        r = deductive.FunctionReport(rel, q + ' [identity comparisons range over one container]')
+        t0 = time.time()
+        try:
+            r.obligations, r.sha = frames.identity_comparisons(rel, q)
+        except frontend.MissingAnchor as e:
+            r.undecided = 'anchor missing: %s' % e
+        r.vacuity = []
+        r.seconds = time.time() - t0
+        reps.append(r)
     return reps
